@@ -7,7 +7,7 @@ from diffcheck import Spec, run_spec
 HARNESSES = [("h_lifecycle", "plain", ())]
 
 T_BEH = "cdfhrRp"
-H_FAST = "cfkdbhr"
+H_FAST = "cfkdbhrz"
 H_SLOW = "ijmw"
 
 
@@ -22,7 +22,7 @@ class C08(Spec):
     rule = ("live listeners with 1-3 workers; every round runs 1-12 client behaviours concurrently, for 1-30 rounds. "
             "Raw Tcp::Handler (T): connect+close, data+close, data/echo/close, data+shutdown(WR), data+RST, immediate RST, "
             "4 MB write requested then closed unread (pending writes at abort). Http::Endpoint with 600 ms time-outs (H): "
-            "connect+close, request/response, keep-alive x2, partial head, partial body, request+shutdown(WR), request+RST, "
+            "connect+close, request/response, keep-alive x2, partial head, partial body, request+shutdown(WR), request+RST, request for a slow 24 MB answer and close at once (the answer is written to a peer that has gone), "
             "silence until the idle scan closes, partial head then silence, answered request then silence, a 24 MB answer never read (write blocked over several idle scans, 408 queued behind it) then RST. Per peer id the "
             "callback log (C connection, I input/request, D disconnection), callbacks after D, and /proc/self/fd against the "
             "idle baseline are compared with the model's log for the same event history. non-trivial = a case with an "
@@ -73,7 +73,7 @@ class C08(Spec):
         return None
 
     def nontrivial(self, case, impl):
-        return any(b in case.split()[3] for b in "rRpijmwdbh")
+        return any(b in case.split()[3] for b in "rRpijmwdbhz")
 
     def kind(self, case, impl):
         t = case.split()
